@@ -20,6 +20,7 @@ EXTRA = {
  "C07": " The emcee-driven variant (much of it with a non-linear ramp) and BlackJAXSMC (stand-in blackjax) are judged by the same bisection oracle.",
  "C11": " For every other durable state the live-dictionary route first runs a continuation that is interrupted before its next checkpoint and then resumes AGAIN from the dictionary the caller still holds (found and led to the repair of a genuine defect). Real-flow scenarios in 2 and 3 dimensions.",
  "C12": " A quarter of the context scenarios do fit() inside the same auto_checkpoint context, another quarter make an earlier sampling call in it; 'loadable by the documented route' is executed for real (resume_from_file, then sample_posterior() with no arguments, on a scratch copy of the file) once per distinct durable state.",
+ "C17": " BlackJAXSMC's own call sites run too (stand-in blackjax): the jax twin of the model checks that a log-prior is attached at trace time and, through jax.debug.callback, that it is the prior of exactly the points the compiled kernel evaluates.",
 }
 
 
@@ -54,7 +55,7 @@ CHECKS.update({
    note="Stub kernels/proposal/model (blackjax: random-walk stand-in only). float32 tolerance for log_q of drawn rows is sensitivity-aware (one float32 ulp of x)."),
  "C17": dict(level="exploration", ref="DESIGN.md section 4 C17", technique="deterministic simulation: temporal invariant evaluated at call time inside the user's likelihood (model seam), all samplers, pool-mapped calls, crash/resume",
    text="The instrumented likelihood asserts at every call of every simulated process that the sample set carries the log-prior of exactly those points and that each point was passed to the prior earlier in the trace; at process end the reported evaluation counter must equal the sum of batch sizes. Runs cover every sampler, preconditioning, namespace, FakePool-mapped calls and resumed runs.",
-   note="Stub kernels/proposal; blackjax call sites not run."),
+   note="Stub kernels/proposal; BlackJAXSMC through a random-walk stand-in (nuts / hmc branches not run; its evaluation counter is not judged)."),
  "C20": dict(level="exploration", ref="DESIGN.md section 4 C20", technique="deterministic simulation: twin runs (same process, fresh interpreter under another PYTHONHASHSEED) with digest equality, recording generator at every supply route, entropy seam for unseeded generators",
    text="Identically seeded runs must be bit-identical in one process and in a fresh interpreter (real zuko and flowjax construction+training, stub proposal; importance, minipcn MCMC, SMC); for each route of supplying a generator the supplied SimGenerator must account for every draw in the trace; changing only its seed must change the result.",
    note="CPU, single-threaded numerics. emcee_smc offers no way to supply a generator and is not judged. One known finding (Emcee.sample ignores its rng argument)."),
